@@ -367,11 +367,29 @@ func runC01(r *core.Run) {
 			}
 		}
 	}
+	// every carrier type: the decoded value is a function of the 16-bit components the colour
+	// reports through RGBA(), whatever its concrete type (YCbCr, CMYK, NYCbCrA, Alpha16, a caller's
+	// own type, pointers to the standard types)
+	{
+		var n int64
+		for _, s := range libSpaces {
+			for _, cc := range c01Carriers() {
+				n++
+				if bad, msg := c01Carrier(s, cc); bad {
+					cc.Space = s.Name
+					r.Violate("carrier", fmt.Sprintf("%s/ColorFromEncodedColor/%s", s.Name, cc.Type), msg, cc)
+				}
+			}
+		}
+		r.AddEvals(n)
+		r.NTCount(n)
+		r.Obs("carrier_type_cases", n)
+	}
 	if r.Variant == "" {
-		for _, v := range []string{"encfirst@3", "encfirst+rev@1"} {
+		for _, v := range []string{"encfirst@3", "encfirst+rev@1", "warm@2"} {
 			r.RunVariantChild(v, 10*time.Minute, false)
 		}
-		r.Obs("fresh_process_variants", []string{"encfirst@3", "encfirst+rev@1"})
+		r.Obs("fresh_process_variants", []string{"encfirst@3", "encfirst+rev@1", "warm@2"})
 	}
 	r.Obs("max_abs_error_per_space", maxErr)
 	r.Obs("code_of_max_error_per_space", maxAt)
@@ -380,7 +398,111 @@ func runC01(r *core.Run) {
 	r.Sample(map[string]any{"space": "prophotorgb", "entry": "From8Bit", "code": 7, "decoded": spaceByName("prophotorgb").From8(7)})
 }
 
+// ---- carrier types ------------------------------------------------------------
+
+type c01CarrierCase struct {
+	Space string    `json:"space,omitempty"`
+	Type  string    `json:"type"`
+	V     [4]uint16 `json:"v"` // constructor arguments (meaning depends on the type)
+}
+
+// own16 is a caller-defined colour type.
+type own16 struct{ r, g, b uint16 }
+
+func (c own16) RGBA() (uint32, uint32, uint32, uint32) {
+	return uint32(c.r), uint32(c.g), uint32(c.b), 0xFFFF
+}
+
+func (cc c01CarrierCase) colour() color.Color {
+	v := cc.V
+	switch cc.Type {
+	case "color.YCbCr":
+		return color.YCbCr{Y: uint8(v[0]), Cb: uint8(v[1]), Cr: uint8(v[2])}
+	case "color.NYCbCrA":
+		return color.NYCbCrA{YCbCr: color.YCbCr{Y: uint8(v[0]), Cb: uint8(v[1]), Cr: uint8(v[2])}, A: 255}
+	case "color.CMYK":
+		return color.CMYK{C: uint8(v[0]), M: uint8(v[1]), Y: uint8(v[2]), K: uint8(v[3])}
+	case "color.Alpha16":
+		return color.Alpha16{A: 0xFFFF}
+	case "color.Alpha":
+		return color.Alpha{A: 0xFF}
+	case "own16":
+		return own16{v[0], v[1], v[2]}
+	case "*color.RGBA64":
+		return &color.RGBA64{R: v[0], G: v[1], B: v[2], A: 0xFFFF}
+	case "*color.NRGBA":
+		return &color.NRGBA{R: uint8(v[0]), G: uint8(v[1]), B: uint8(v[2]), A: 0xFF}
+	case "color.Gray16":
+		return color.Gray16{Y: v[0]}
+	}
+	return color.RGBA64{R: v[0], G: v[1], B: v[2], A: 0xFFFF}
+}
+
+func c01Carriers() []c01CarrierCase {
+	var out []c01CarrierCase
+	for y := 0; y < 256; y += 17 {
+		for cb := 0; cb < 256; cb += 15 {
+			for cr := 0; cr < 256; cr += 15 {
+				t := "color.YCbCr"
+				if (y+cb+cr)%4 == 0 {
+					t = "color.NYCbCrA"
+				}
+				out = append(out, c01CarrierCase{Type: t, V: [4]uint16{uint16(y), uint16(cb), uint16(cr), 0}})
+			}
+		}
+	}
+	for c := 0; c < 256; c += 51 {
+		for m := 0; m < 256; m += 51 {
+			for y := 0; y < 256; y += 51 {
+				for k := 0; k < 256; k += 51 {
+					out = append(out, c01CarrierCase{Type: "color.CMYK", V: [4]uint16{uint16(c), uint16(m), uint16(y), uint16(k)}})
+				}
+			}
+		}
+	}
+	out = append(out, c01CarrierCase{Type: "color.Alpha16"}, c01CarrierCase{Type: "color.Alpha"})
+	for i := 0; i < 4096; i++ {
+		v := [4]uint16{uint16(i * 16), uint16(65535 - i*13), uint16((i*7919 + 5) & 0xFFFF), 0}
+		out = append(out, c01CarrierCase{Type: []string{"own16", "*color.RGBA64", "*color.NRGBA", "color.Gray16"}[i%4], V: v})
+	}
+	return out
+}
+
+func c01Carrier(s *libSpace, cc c01CarrierCase) (bad bool, msg string) {
+	c := cc.colour()
+	r16, g16, b16, a16 := c.RGBA()
+	if a16 != 0xFFFF {
+		return false, "not opaque"
+	}
+	got, alpha := s.FromEncoded(c)
+	if alpha != 1 {
+		return true, fmt.Sprintf("%s ColorFromEncodedColor(%s %v): alpha %v for an opaque colour", s.Name, cc.Type, c, alpha)
+	}
+	for k, code := range []uint32{r16, g16, b16} {
+		want := s.Ref.Curve.EOTF(float64(code) / 65535)
+		g := float64(pick3(k, got.R, got.G, got.B))
+		if d := math.Abs(g - want); !(d <= c01Tol) {
+			return true, fmt.Sprintf("%s ColorFromEncodedColor(%s %v): its RGBA() reports %#04x %#04x %#04x; channel %d decoded to %.9g, the published EOTF of %#04x is %.9g (|diff| %.3g)", s.Name, cc.Type, c, r16, g16, b16, k, g, code, want, d)
+		}
+	}
+	return false, "ok"
+}
+
 func replayC01(stage string, raw json.RawMessage) (bool, string, error) {
+	if stage == "carrier" {
+		var cc c01CarrierCase
+		if err := json.Unmarshal(raw, &cc); err != nil {
+			return false, "", err
+		}
+		for _, s := range libSpaces {
+			if cc.Space == "" || cc.Space == s.Name {
+				if bad, msg := c01Carrier(s, cc); bad {
+					return true, msg, nil
+				}
+			}
+		}
+		return false, "ok", nil
+	}
 	var cs c01Case
 	if err := json.Unmarshal(raw, &cs); err != nil {
 		return false, "", err
